@@ -8,7 +8,7 @@ CONSTANTS
   TplNs = 10
   MaxN = 3
   MaxRedirects = 3
-  Combos <- CombosQ
+  Combos <- CombosQ2
 INVARIANT ResultIsClosure
 INVARIANT ResultWithinStatement
 INVARIANT NeverOvermarks
